@@ -547,9 +547,31 @@ func checkUnmarkRemovesOne(p *load.Program, r *kit.Report, rule string) {
 			if !lo.Equal(hi.AddK(1)) {
 				bad = "the list is rebuilt from list[:" + hi.String() + "] and list[" + lo.String() + ":]: not exactly one element is left out"
 			}
-			// the store lies behind the match
+			// the store lies behind the match — or the index removed is the very index whose element
+			// was compared (a search loop `for i < len && !list[i].Equal(h) { i++ }` followed by an
+			// `i == len` return reaches the store only with the match at i)
 			if ok, _ := kit.DominatedByEdges(f, store, edgesOf(eq, true), nil, p.Pos); !ok && bad == "" {
-				bad = "the element is removed without having been compared with the hash to unmark"
+				same := false
+				for _, g := range eq {
+					if c, isCall := g.If.Cond.(*ssa.Call); isCall {
+						for _, a := range c.Call.Args {
+							if ia, isIA := kit.Strip(a).(*ssa.IndexAddr); isIA && isList(ia.X) && lin.Of(ia.Index).Equal(hi) {
+								same = true
+							}
+						}
+					} else if u, isNot := g.If.Cond.(*ssa.UnOp); isNot {
+						if c, isCall := u.X.(*ssa.Call); isCall {
+							for _, a := range c.Call.Args {
+								if ia, isIA := kit.Strip(a).(*ssa.IndexAddr); isIA && isList(ia.X) && lin.Of(ia.Index).Equal(hi) {
+									same = true
+								}
+							}
+						}
+					}
+				}
+				if !same {
+					bad = "the element is removed without having been compared with the hash to unmark"
+				}
 			}
 			r.Check(bad == "", rule, key, posOf(p, store), "append(list[:i], list[i+1:]...) behind the match", bad)
 			return
@@ -611,7 +633,12 @@ func checkLongestTiesKeepFirst(p *load.Program, r *kit.Report, rule string) {
 		return kit.DependsOnNoPhi(v, func(x ssa.Value) bool {
 			switch y := x.(type) {
 			case *ssa.IndexAddr:
-				return len(f.Params) > 0 && kit.Strip(y.X) == ssa.Value(f.Params[0])
+				// an element of the list itself or of a sub-slice of it (`range bs[1:]`)
+				base := kit.Strip(y.X)
+				if sl, ok := base.(*ssa.Slice); ok {
+					base = kit.Strip(sl.X)
+				}
+				return len(f.Params) > 0 && base == ssa.Value(f.Params[0])
 			case *ssa.Extract:
 				_, isNext := y.Tuple.(*ssa.Next)
 				return isNext
